@@ -80,6 +80,8 @@ pub enum Op {
     AUnsyncLoad { a: u8 },
     /// `while load(o) != v { yield_now() }`; result = v
     Await { a: u8, o: MO, v: u64 },
+    /// `loop { yield_now(); if load(o) == v { break } }` (yields before every look)
+    AwaitY { a: u8, o: MO, v: u64 },
     // ---- threads ----
     Spawn { t: u8 },
     Join { t: u8 },
@@ -213,7 +215,8 @@ impl Op {
             | Op::FetchUpdate { a, .. }
             | Op::AWithMut { a, .. }
             | Op::AUnsyncLoad { a }
-            | Op::Await { a, .. } => Some(*a),
+            | Op::Await { a, .. }
+            | Op::AwaitY { a, .. } => Some(*a),
             Op::If { then, .. } => then.atomic_loc(),
             _ => None,
         }
@@ -249,6 +252,7 @@ impl fmt::Display for Op {
             AWithMut { a, v } => write!(f, "withmut(a{},{})", a, v),
             AUnsyncLoad { a } => write!(f, "unsync(a{})", a),
             Await { a, o, v } => write!(f, "await(a{},{},{})", a, o.short(), v),
+            AwaitY { a, o, v } => write!(f, "yield_await(a{},{},{})", a, o.short(), v),
             Spawn { t } => write!(f, "spawn(T{})", t),
             Join { t } => write!(f, "join(T{})", t),
             Yield => write!(f, "yield"),
@@ -351,7 +355,7 @@ impl Program {
             // (kind, index, is_read_only)
             use Op::*;
             Some(match op {
-                Load { a, .. } | AUnsyncLoad { a } | Await { a, .. } => (0, *a, true),
+                Load { a, .. } | AUnsyncLoad { a } | Await { a, .. } | AwaitY { a, .. } => (0, *a, true),
                 Store { a, .. }
                 | Swap { a, .. }
                 | FetchAdd { a, .. }
